@@ -126,6 +126,11 @@ impl CountedIndex {
     }
 
     #[inline(always)]
+    pub fn store_raw(&self, val: usize, ord: Ordering) {
+        self.val.store(val, ord)
+    }
+
+    #[inline(always)]
     pub fn load_transaction(&self, ord: Ordering) -> Transaction {
         Transaction {
             ptr: &self.val,
